@@ -161,6 +161,21 @@ Proof.
   destruct (spec_auth_key e) as [k|] eqn:K; [apply agree_add; assumption|rewrite agree_add_none; assumption].
 Qed.
 
+(* every entry sits under its own key *)
+Definition keyed (s : astate) : Prop := forall k p, s k = Some p -> spec_auth_key p = Some k.
+
+Lemma keyed_upd s k e : keyed s -> spec_auth_key e = Some k -> keyed (upd s k e).
+Proof.
+  intros K E k' p. unfold upd. destruct (tkey_eqb k' k) eqn:T; [|apply K].
+  apply tkey_eqb_eq in T. subst. intro H. inversion H; subst. exact E.
+Qed.
+
+Lemma keyed_state_of_list l : forall s, keyed s -> keyed (state_of_list l s).
+Proof.
+  induction l as [|e r IH]; intros s K; simpl; [exact K|]. apply IH.
+  destruct (spec_auth_key e) as [k|] eqn:E; [apply keyed_upd; assumption|exact K].
+Qed.
+
 Section Walks.
   Variable allowed : event -> list event -> bool.
 
@@ -184,21 +199,25 @@ Section Walks.
   Qed.
 
   Lemma resolve_auth_block_is_spec s k block st first rest :
-    st_agree (v_auth st) s -> s k = None ->
+    st_agree (v_auth st) s -> keyed s ->
     ssort v1_cmp block = first :: rest ->
     (forall e, In e block -> spec_auth_key e = Some k) ->
     let r := resolve_auth_block allowed block st in
     fst r = Some (auth_winner allowed s k first rest) /\
     st_agree (v_auth (snd r)) s /\ v_result (snd r) = v_result st.
   Proof.
-    intros A Hk E K. unfold resolve_auth_block. rewrite E.
+    intros A Hkeyed E K. unfold resolve_auth_block. rewrite E.
     assert (Kall : forall e, In e (first :: rest) -> spec_auth_key e = Some k).
     { intros e He. apply K. apply (ssort_In _ v1_cmp). rewrite E. exact He. }
+    assert (Kf : auth_key (e_type first) (e_skey first) = Some k).
+    { rewrite auth_key_spec. apply Kall. left. reflexivity. }
+    rewrite Kf.
     destruct (auth_block_walk_is_spec s k rest first
                 (mkV1 (add_auth_event (v_auth st) first) (v_result st) (v_log st))) as [W [A2 R]].
     { simpl. apply agree_add; [exact A|apply Kall; left; reflexivity]. }
     { intros; apply Kall; right; assumption. }
-    simpl. split; [rewrite W; reflexivity|]. split; [|exact R].
+    cbv zeta. cbn [fst snd v_result].
+    split; [rewrite W; reflexivity|]. split; [|exact R].
     assert (Kw : spec_auth_key (fst (auth_block_walk allowed rest first
                   (mkV1 (add_auth_event (v_auth st) first) (v_result st) (v_log st)))) = Some k).
     { rewrite W. clear -Kall. revert first Kall. induction rest as [|e r IH]; intros first Kall; simpl.
@@ -206,8 +225,12 @@ Section Walks.
       - destruct (allowed e _).
         + apply IH. intros x [<-|Hx]; apply Kall; [right; left; reflexivity|right; right; exact Hx].
         + apply Kall. left. reflexivity. }
-    intro k'. rewrite (agree_remove _ _ _ k A2 Kw k'). unfold upd.
-    destruct (tkey_eqb k' k) eqn:E'; [apply tkey_eqb_eq in E'; subst; symmetry; exact Hk|reflexivity].
+    pose proof (agree_remove _ _ _ k A2 Kw) as Arm.
+    cbn [v_auth]. rewrite (A k). destruct (s k) as [p|] eqn:Esk.
+    - intro k'. rewrite (agree_add _ _ p k Arm (Hkeyed k p Esk) k'). unfold upd.
+      destruct (tkey_eqb k' k) eqn:E'; [apply tkey_eqb_eq in E'; subst; symmetry; exact Esk|reflexivity].
+    - intro k'. rewrite (Arm k'). unfold upd.
+      destruct (tkey_eqb k' k) eqn:E'; [apply tkey_eqb_eq in E'; subst; symmetry; exact Esk|reflexivity].
   Qed.
 
   (* ---------- one normal block ---------- *)
@@ -487,14 +510,13 @@ Section Stage.
     destruct (allowed e _); [destruct (IH e); auto|auto].
   Qed.
 
-  Lemma stage_blocks c s : c < 5 -> forall ks acc st,
+  Lemma stage_blocks c s : c < 5 -> keyed s -> forall ks acc st,
     (forall k, In k ks -> In k (keys_of (filter (in_cls c) conflicted))) ->
-    (forall k, In k ks -> s k = None) ->
     st_agree (v_auth st) s ->
     let r := fold_left (rab_step allowed) (map (fun k => grp k (filter (in_cls c) conflicted)) ks) (acc, st) in
     fst r = acc ++ map snd (winners_of s ks) /\ st_agree (v_auth (snd r)) s /\ v_result (snd r) = v_result st.
   Proof.
-    intro Hc. induction ks as [|k ks IH]; intros acc st Hks Hfree A; simpl.
+    intros Hc Hkeyed. induction ks as [|k ks IH]; intros acc st Hks A; simpl.
     - rewrite app_nil_r. auto.
     - assert (Hk : In k (keys_of (filter (in_cls c) conflicted))) by (apply Hks; left; reflexivity).
       pose proof (sorted_block c k Hk) as Hs.
@@ -504,14 +526,12 @@ Section Stage.
       { exfalso. assert (P : Permutation (ssort v1_cmp (b0 :: b')) (b0 :: b')) by apply ssort_perm.
         rewrite Hs in P. apply Permutation_nil in P. discriminate. }
       unfold rab_step at 2. simpl snd.
-      destruct (resolve_auth_block_is_spec allowed s k (b0 :: b') st c0 newer A) as [W [A2 R]].
-      { apply Hfree. left. reflexivity. }
+      destruct (resolve_auth_block_is_spec allowed s k (b0 :: b') st c0 newer A Hkeyed) as [W [A2 R]].
       { exact Hs. }
       { intros e He. apply (block_keys c k e Hc). rewrite Eb. exact He. }
       rewrite W. simpl opt_list. simpl fst.
       destruct (IH (acc ++ [auth_winner allowed s k c0 newer]) (snd (resolve_auth_block allowed (b0 :: b') st))) as [I1 [I2 I3]].
       { intros; apply Hks; right; assumption. }
-      { intros; apply Hfree; right; assumption. }
       { exact A2. }
       split; [|split; [exact I2|congruence]].
       rewrite I1. simpl. rewrite <- app_assoc. reflexivity.
@@ -530,15 +550,14 @@ Section Stage.
 
   (* a whole stage of the model: the blocks of class c *)
   Lemma stage_total c s st :
-    c < 5 -> st_agree (v_auth st) s ->
-    (forall k, In k (keys_of (filter (in_cls c) conflicted)) -> s k = None) ->
+    c < 5 -> st_agree (v_auth st) s -> keyed s ->
     let W := winners_of s (keys_of (filter (in_cls c) conflicted)) in
     let st' := resolve_and_add_auth_blocks allowed (map snd (fold_left (addif c) conflicted [])) st in
     v_result st' = v_result st ++ map snd W /\ st_agree (v_auth st') (after_stage s W).
   Proof.
-    intros Hc A Hfree W st'. unfold st'. rewrite rab_unfold.
+    intros Hc A Hkeyed W st'. unfold st'. rewrite rab_unfold.
     destruct (class_blocks c conflicted) as [Hb _]. rewrite Hb, map_map. simpl.
-    destruct (stage_blocks c s Hc (keys_of (filter (in_cls c) conflicted)) [] st (fun k H => H) Hfree A) as [I1 [I2 I3]].
+    destruct (stage_blocks c s Hc Hkeyed (keys_of (filter (in_cls c) conflicted)) [] st (fun k H => H) A) as [I1 [I2 I3]].
     simpl in I1. cbv zeta. rewrite I1, I3. split; [reflexivity|].
     apply agree_fold; [exact I2|]. apply (winners_keys c s _ Hc (fun k H => H)).
   Qed.
@@ -619,20 +638,10 @@ Section Others.
   Qed.
 End Others.
 
-(* ---------- the free keys ---------- *)
-Lemma state_of_list_none l : forall s k,
-  s k = None -> (forall a, In a l -> spec_auth_key a <> Some k) -> state_of_list l s k = None.
+Lemma keyed_after_stage W : forall s, keyed s -> (forall k w, In (k, w) W -> spec_auth_key w = Some k) -> keyed (after_stage s W).
 Proof.
-  induction l as [|a r IH]; intros s k Hs Ha; simpl; [exact Hs|]. apply IH; [|intros; apply Ha; right; assumption].
-  destruct (spec_auth_key a) as [ka|] eqn:E; [|exact Hs]. unfold upd.
-  rewrite tkey_eqb_neq; [exact Hs|]. intro; subst. apply (Ha a (or_introl eq_refl)). exact E.
-Qed.
-
-Lemma after_stage_other W : forall s k', (forall k w, In (k, w) W -> k <> k') -> after_stage s W k' = s k'.
-Proof.
-  unfold after_stage. induction W as [|[k w] r IH]; intros s k' H; simpl; [reflexivity|].
-  rewrite IH; [|intros; eapply H; right; eassumption]. unfold upd.
-  rewrite tkey_eqb_neq; [reflexivity|]. intro E. apply (H k w (or_introl eq_refl)). symmetry. exact E.
+  unfold after_stage. induction W as [|[k w] r IH]; intros s K H; simpl; [exact K|].
+  apply IH; [apply keyed_upd; [exact K|apply H; left; reflexivity]|intros; apply H; right; assumption].
 Qed.
 
 Section Compose.
@@ -641,40 +650,13 @@ Section Compose.
   Hypothesis ND : NoDup (ids_of conflicted).
   Hypothesis ties : forall a b, In a conflicted -> In b conflicted -> v1_cmp a b = Eq -> a = b.
   Hypothesis state_events : forall e, In e conflicted -> e_skey e <> None.
-  Hypothesis pre : auth_events_unconflicted conflicted auth_events = true.
 
   Notation Kc c := (keys_of (filter (in_cls c) conflicted)).
   Notation Wc s c := (winners_of allowed conflicted s (Kc c)).
 
-  (* no conflicted key of class >= c is set *)
-  Definition free_from (c : nat) (s : astate) : Prop :=
-    forall e k, In e conflicted -> event_tkey e = Some k -> c <= cls e -> s k = None.
-
-  Lemma key_in_class c k : In k (Kc c) -> exists e, In e conflicted /\ event_tkey e = Some k /\ cls e = c.
+  Lemma keyed_next c s : c < 5 -> keyed s -> keyed (after_stage s (Wc s c)).
   Proof.
-    intro H. unfold keys_of in H. apply keys_of_in in H as [[]|[e [He Ek]]].
-    apply filter_In in He as [He Hc]. exists e. repeat split; auto. apply Nat.eqb_eq. exact Hc.
-  Qed.
-
-  Lemma free_keys c s : free_from c s -> forall k, In k (Kc c) -> s k = None.
-  Proof. intros F k Hk. destruct (key_in_class c k Hk) as [e [He [Ek Hc]]]. apply (F e k He Ek). lia. Qed.
-
-  Lemma free_start : free_from 0 (state_of_list auth_events (fun _ => None)).
-  Proof.
-    intros e k He Ek _. apply state_of_list_none; [reflexivity|]. intros a Ha Hk.
-    unfold auth_events_unconflicted in pre. rewrite forallb_forall in pre. specialize (pre a Ha). rewrite Hk in pre.
-    apply negb_true_iff in pre. assert (X : existsb (fun c => match e_skey c with Some sk => tkey_eqb (e_type c, sk) k | None => false end) conflicted = true).
-    { apply existsb_exists. exists e. split; [exact He|]. unfold event_tkey in Ek. destruct (e_skey e); [|discriminate].
-      inversion Ek. apply tkey_eqb_refl. }
-    congruence.
-  Qed.
-
-  Lemma free_next c s : c < 5 -> free_from c s -> free_from (S c) (after_stage s (Wc s c)).
-  Proof.
-    intros Hc F e k He Ek Hcl. rewrite after_stage_other; [apply (F e k He Ek); lia|].
-    intros k0 w Hw E. subst k0. unfold winners_of in Hw. apply in_flat_map in Hw as [k1 [Hk1 Hw]].
-    destruct (candidates conflicted k1); [contradiction|]. destruct Hw as [Hw|[]]. inversion Hw; subst.
-    destruct (key_in_class c k Hk1) as [ex [Hex [Ekx Hcx]]]. rewrite (cls_of_key e ex k Ek Ekx) in Hcl. lia.
+    intros Hc K. apply keyed_after_stage; [exact K|]. apply (winners_keys allowed conflicted ND ties c s _ Hc (fun k H => H)).
   Qed.
 
   Lemma stage_winners_is s c t :
@@ -691,28 +673,28 @@ Section Compose.
     set (s0 := state_of_list auth_events (fun _ => None)).
     assert (A0 : st_agree (v_auth st0) s0).
     { unfold st0, s0. simpl. apply agree_state_of_list. intro k. reflexivity. }
-    pose proof free_start as F0. fold s0 in F0.
+    assert (K0 : keyed s0) by (apply keyed_state_of_list; intros k p H; discriminate).
     (* create, power levels, join rules: single blocks *)
     rewrite (rab_single allowed (filter (in_cls 0) conflicted)), <- (single_block 0 conflicted) by lia.
-    destruct (stage_total allowed conflicted ND ties 0 s0 st0 ltac:(lia) A0 (free_keys 0 s0 F0)) as [R1 A1].
+    destruct (stage_total allowed conflicted ND ties 0 s0 st0 ltac:(lia) A0 K0) as [R1 A1].
     set (st1 := resolve_and_add_auth_blocks allowed (map snd (fold_left (addif 0) conflicted [])) st0) in *.
     set (s1 := after_stage s0 (Wc s0 0)) in *.
-    pose proof (free_next 0 s0 ltac:(lia) F0) as F1. fold s1 in F1.
+    pose proof (keyed_next 0 s0 ltac:(lia) K0) as K1. fold s1 in K1.
     rewrite (rab_single allowed (filter (in_cls 1) conflicted)), <- (single_block 1 conflicted) by lia.
-    destruct (stage_total allowed conflicted ND ties 1 s1 st1 ltac:(lia) A1 (free_keys 1 s1 F1)) as [R2 A2].
+    destruct (stage_total allowed conflicted ND ties 1 s1 st1 ltac:(lia) A1 K1) as [R2 A2].
     set (st2 := resolve_and_add_auth_blocks allowed (map snd (fold_left (addif 1) conflicted [])) st1) in *.
     set (s2 := after_stage s1 (Wc s1 1)) in *.
-    pose proof (free_next 1 s1 ltac:(lia) F1) as F2. fold s2 in F2.
+    pose proof (keyed_next 1 s1 ltac:(lia) K1) as K2. fold s2 in K2.
     rewrite (rab_single allowed (filter (in_cls 2) conflicted)), <- (single_block 2 conflicted) by lia.
-    destruct (stage_total allowed conflicted ND ties 2 s2 st2 ltac:(lia) A2 (free_keys 2 s2 F2)) as [R3 A3].
+    destruct (stage_total allowed conflicted ND ties 2 s2 st2 ltac:(lia) A2 K2) as [R3 A3].
     set (st3 := resolve_and_add_auth_blocks allowed (map snd (fold_left (addif 2) conflicted [])) st2) in *.
     set (s3 := after_stage s2 (Wc s2 2)) in *.
-    pose proof (free_next 2 s2 ltac:(lia) F2) as F3. fold s3 in F3.
-    destruct (stage_total allowed conflicted ND ties 3 s3 st3 ltac:(lia) A3 (free_keys 3 s3 F3)) as [R4 A4].
+    pose proof (keyed_next 2 s2 ltac:(lia) K2) as K3. fold s3 in K3.
+    destruct (stage_total allowed conflicted ND ties 3 s3 st3 ltac:(lia) A3 K3) as [R4 A4].
     set (st4 := resolve_and_add_auth_blocks allowed (map snd (fold_left (addif 3) conflicted [])) st3) in *.
     set (s4 := after_stage s3 (Wc s3 3)) in *.
-    pose proof (free_next 3 s3 ltac:(lia) F3) as F4. fold s4 in F4.
-    destruct (stage_total allowed conflicted ND ties 4 s4 st4 ltac:(lia) A4 (free_keys 4 s4 F4)) as [R5 A5].
+    pose proof (keyed_next 3 s3 ltac:(lia) K3) as K4. fold s4 in K4.
+    destruct (stage_total allowed conflicted ND ties 4 s4 st4 ltac:(lia) A4 K4) as [R5 A5].
     set (st5 := resolve_and_add_auth_blocks allowed (map snd (fold_left (addif 4) conflicted [])) st4) in *.
     set (s5 := after_stage s4 (Wc s4 4)) in *.
     (* the other keys *)
